@@ -5,6 +5,7 @@ package props
 import (
 	"encoding/json"
 	"fmt"
+	"math/big"
 	"strings"
 	"testing"
 	"time"
@@ -233,6 +234,47 @@ func (w *c01World) rewardOracle(pre, post *rewardSnap) (string, string) {
 		}
 		if !legit {
 			return "C01/reward-without-valid-proof", fmt.Sprintf("reward block at %d paid %s%s to %s, which has never validly proven any file it is listed on", post.Height, d.Diff, d.Denom, short(d.Addr))
+		}
+	}
+	// nobody is paid for a file it has not validly proven: a prover's payout is bounded by the share its validly
+	// proven, still-honoured files give it under the most generous reading (denominator = counted provers only)
+	credit := map[string]*big.Int{}
+	total := new(big.Int)
+	R := new(big.Int)
+	for _, d := range pre.Bal.Diff(post.Bal) {
+		if gauges[d.Addr] && d.Diff.IsNegative() {
+			R.Sub(R, d.Diff.BigInt())
+		}
+	}
+	for _, fk := range sortedFileKeys(pre.Files) {
+		fs := pre.Files[fk]
+		for _, p := range fs.Provers {
+			pm, ok := w.pairs[p+"|"+fk]
+			if !ok {
+				continue
+			}
+			if _, met := obligationMet(post.Height, fs.Start, fs.Window, pm.LastAccepted); met {
+				if credit[p] == nil {
+					credit[p] = new(big.Int)
+				}
+				credit[p].Add(credit[p], big.NewInt(fs.Size))
+				total.Add(total, big.NewInt(fs.Size))
+			}
+		}
+	}
+	for _, d := range pre.Bal.Diff(post.Bal) {
+		if gauges[d.Addr] || d.Addr == storageModuleAddr || !d.Diff.IsPositive() {
+			continue
+		}
+		c := credit[d.Addr]
+		if c == nil || total.Sign() == 0 {
+			return "C01/reward-without-valid-proof", fmt.Sprintf("reward block at %d paid %s to %s, which holds no validly proven, still honoured file", post.Height, d.Diff, short(d.Addr))
+		}
+		hi := new(big.Int).Mul(R, c)
+		hi.Quo(hi, total)
+		hi.Add(hi, big.NewInt(1))
+		if d.Diff.BigInt().Cmp(hi) > 0 {
+			return "C01/reward-exceeds-proven-share", fmt.Sprintf("reward block at %d released %s; %s validly holds size %s of %s counted, but was paid %s (> %s): it is being paid for files it has not proven", post.Height, R, short(d.Addr), c, total, d.Diff, hi)
 		}
 	}
 	// membership may only shrink in a reward block
